@@ -135,13 +135,14 @@ def gen_components(ch, sim, log):
             c = AccessControl(cfg)
             d = f"AccessControl(v{v})"
         else:
-            v = ch.choose("ca", 4)
+            v = ch.choose("ca", 5)
             rules = [
                 [CertificateAuthPathRule(prefix="/", require_cert=True)],
                 [CertificateAuthPathRule(prefix="/up/", require_cert=True),
                  CertificateAuthPathRule(prefix="/c", require_cert=False)],
                 [CertificateAuthPathRule(prefix="/", allowed_fingerprints={fx.fp("cli_rsa1")})],
                 [CertificateAuthPathRule(prefix="/", allowed_fingerprints={fx.fp("cli_ed1")})],
+                [CertificateAuthPathRule(prefix="/", allowed_fingerprints={fx.fp("cli_same1")})],
             ][v]
             c = CertificateAuth(CertificateAuthConfig(path_rules=rules))
             d = f"CertificateAuth(v{v})"
@@ -263,7 +264,8 @@ def run_one(ch):
     for i in range(nconn):
         info = gen_conn(ch, i, True)
         info["ip"] = SRC_IPS[ch.choose("ip", len(SRC_IPS))]
-        info["cert"] = ch.pick("cert", [None, "cli_rsa1", "cli_ed1"], [4, 2, 1]) if mode != "plain" else None
+        info["cert"] = ch.pick("cert", [None, "cli_rsa1", "cli_ed1", "cli_same1", "cli_same2"],
+                               [4, 2, 1, 2, 2]) if mode != "plain" else None
         info["start"] = ch.pick("cstart", [0.0, 0.01, 0.7]) if i else 0.0
         # content arrives late (titan): split after the line with a delay
         info["late"] = ch.pick("late", [0.0, 0.02, 1.0, 6.0], [5, 3, 2, 1])
